@@ -42,6 +42,15 @@ class Scn(c02.Scn):
         ex.histories = {i: w.history(i, -1) for i in w.ids}
         return ex
 
+    def post_actor(self, j: int, w: Any, app: Any) -> None:
+        """The actor flushes (per invocation) and reads the history while other actors and writers are still going:
+        every change this actor made itself before the flush must be there."""
+        pos = len(w.log)
+        for inv_id in w.ids:
+            app.state_backend.wait_for_invocation_async_operations(inv_id)
+            got = [(h[0], h[3]) for h in w.history(inv_id, j)]
+            w.__dict__.setdefault("flush_obs", []).append((worlds._tid(), pos, inv_id, got))
+
     def digest(self, ex: sched.Execution) -> Any:
         base = super().digest(ex)
         hs = tuple(tuple((h[0], h[1], h[2]) for h in sorted(ex.histories[i], key=lambda h: h[3])) for i in ex.world.ids)
@@ -80,6 +89,16 @@ class Scn(c02.Scn):
             if sig:
                 p.violation({"clause": sig, **base},
                             {"id": inv_id, "history": [list(g) for g in got], "changes": [list(x) for x in want]}, {})
+                return
+        # flush observations taken inside the schedule
+        # (only the actor's own changes: another thread may sit between its transition and its add_history call)
+        for tid, pos, inv_id, got in getattr(w, "flush_obs", []):
+            need = [(e[6][0], e[6][2]) for e in worlds.successful(w.log[:pos], inv_id) if e[1] == tid]
+            p.count("flush_observations")
+            missing = [x for x in need if x not in got]
+            if missing:
+                p.violation({"clause": "change-missing-from-history-after-flush", **base},
+                            {"id": inv_id, "actor_thread": tid, "missing": [list(x) for x in missing], "read": [list(g) for g in got]}, {})
                 return
         # nothing recorded under an id that is not one of the world's invocations
         known = {e[2] for e in w.log if e[0] == "tr"}
